@@ -4,7 +4,7 @@ from ..core import AnalysisError
 from ..tmpl import transition_body_paths, iter_lines
 from ..cevents import events_of
 from ..emit import Line, LoopBlock, CallBlock
-from ..srcmodel import walk_no_nested, calls_in, is_flag_test, raised_class
+from ..srcmodel import walk_no_nested, calls_in, is_flag_test, raised_class, strip_doc
 from ..dispatch import dispatch_on
 from .tbrows import check_row
 
@@ -233,3 +233,61 @@ _run0 = run
 def run(ctx, rep, tier):
     _run0(ctx, rep, tier)
     _shared(ctx, rep, tier)
+
+
+# ---------------------------------------------------------------------------------------------------------------- C17.g / h / i
+def _end_redirects_and_joins(ctx, rep, tier):
+    import ast, re
+    from ..srcmodel import walk_no_nested
+    model = ctx.model
+    # C17.g - end(): an action of the taken end transition may redirect at run time; the answer must follow the state really reached
+    q = "CodegenCtx._generate_end_switch_body"
+    rep.rule("C17.g", "end(): when an action of the taken (consuming) end transition can redirect, states that answer differently from the nominal target get a run-time test before the static DONE/FAIL")
+    ok = model.has(q, "if not unconditional_end_transition.is_fallthrough:\n    final_state = unconditional_end_transition.target\n    for action in unconditional_end_transition.actions:\n"
+                      "        for subaction in action.all_subactions():\n            if subaction.get_target_override_mode() != ActionOverrideMode.NONE:\n"
+                      "                redirected_to.update(subaction.get_target_override_targets())")
+    rep.check(ok, "C17.g", q, "override targets of every (sub-)action of the taken end transition are collected", "end() ignores where an action of the end transition may redirect: a break under an if taken in an "
+              "`end` clause leaves the machine in the loop exit while DONE/FAIL is answered for the nominal target")
+    ok = model.has(q, "answers_differently = sorted((self.dfa.states.index(x) for x in redirected_to if x in self.dfa.states and (x in self.dfa.accepting_states) != (final_state in self.dfa.accepting_states)))") and \
+        model.has(q, "if answers_differently:\n    redirected = ' || '.join((f'state->state == {x}' for x in answers_differently))\n    if final_state in self.dfa.accepting_states:\n"
+                     "        result.add(f'if ({redirected}) return {self.program_name.upper()}_FAIL;')\n    else:\n        result.add(f'if ({redirected}) return {self.program_name.upper()}_DONE;')")
+    rep.check(ok, "C17.g", q, "redirect targets whose acceptance differs are tested on state->state and answered with the opposite result", "the run-time test for redirected end transitions changed")
+    body = strip_doc(model.func(q).body)
+    idx_t = next((i for i, st in enumerate(body) if isinstance(st, ast.If) and ast.unparse(st.test) == "answers_differently"), None)
+    idx_s = next((i for i, st in enumerate(body) if isinstance(st, ast.If) and ast.unparse(st.test) == "final_state in self.dfa.accepting_states"), None)
+    rep.check(idx_t is not None and idx_s is not None and idx_t < idx_s, "C17.g", q, "the run-time test precedes the static answer", "static DONE/FAIL is emitted before the redirect test: the test is dead code")
+    # C17.h - joining a statement that starts with a condition point
+    q = "DFA.append_after"
+    rep.rule("C17.h", "append_after wraps a chained machine starting with a condition point whenever some symbol can continue (also when nothing is left for the error side, as with wildcard + `end` branches)")
+    ok = model.has(q, "valid, to_else = chained_dfa.starting_state.equivalent_on_values()\nif valid:\n    ...") and \
+        model.has(q, "if to_else:\n    fake_start[to_else] = chained_dfa.starting_state\n    fake_start[to_else].fallthrough(True).handles_else()") and \
+        model.has(q, "fake_start[valid] = chained_dfa.starting_state\nfake_initial_transition = fake_start[valid].fallthrough(True)")
+    rep.check(ok, "C17.h", q, "helper start state built under `if valid:`; error side only when non-empty", "the helper start state for a chained condition point is only built when some symbol is left for the error "
+              "side: `if v == 1 { /./; } else { end; }` takes every byte and end-of-input, no helper is built and the condition is never evaluated")
+    # C17.i - merged case states keep End apart from a continuing wildcard's Else
+    q = "CaseNode._merge"
+    rep.rule("C17.i", "merged case states: symbols a constituent pattern explicitly excludes (End in particular) are not swallowed by the Else of a pattern that continues - for accepting merged states too")
+    fn = model.func(q)
+    w = next((n for n in walk_no_nested(fn) if isinstance(n, ast.While) and "to_process.empty()" in ast.unparse(n.test)), None)
+    if w is None:
+        raise AnalysisError("C17.i: work loop of CaseNode._merge not found")
+    mk = next((i for i, st in enumerate(w.body) if isinstance(st, ast.If) and "DFTransition(list(actual_else))" in ast.unparse(st)), None)
+    skip = next((i for i, st in enumerate(w.body) if isinstance(st, ast.If) and ast.unparse(st.test) == "converted_states[processing] in new_dfa.accepting_states" and
+                 len(st.body) == 1 and isinstance(st.body[0], ast.Continue)), None)
+    if mk is None:
+        raise AnalysisError("C17.i: creation of the no-match transition not found in CaseNode._merge")
+    rep.check(not (skip is not None and skip < mk), "C17.i", q, "accepting merged states keep the explicit exclusions of a continuing wildcard",
+              "accepting merged states skip the no-match transition unconditionally: the `{excluded bytes, End}` entry of a wildcard / inverted set that continues there is dropped and its Else covers "
+              "End - `greedy case { /a/ -> {} /a./ -> { v = 2; finish FC; } }`: feed(\"a\") then end() runs the second clause (FINISH_FC, v = 2) instead of DONE")
+
+
+_run_gh = run
+
+
+def run(ctx, rep, tier):
+    _run_gh(ctx, rep, tier)
+    _end_redirects_and_joins(ctx, rep, tier)
+    from . import structs
+    from .shared import delegate
+    structs.check_cull_policy(ctx, rep, "C17.j")      # joins keep the explicit End exclusion of a following wildcard
+    delegate(ctx, rep, tier, "C05", ("C05.a", "C05.b", "C05.g", "C05.h", "C05.i"), "C17.k", "optimiser rewrites keep the error mark end() relies on and never reroute End past the transition that handles it")
